@@ -57,7 +57,26 @@ func main() {
 	instrumentGo(*repo, *out, res, "pkg/logic/group__in.go", "verifRelaySpawn", "verifRelayDone")
 	// a push goroutine registers its session after Start() returned; the environment waits for that
 	instrumentFunc(*repo, *out, res, "pkg/logic/group__relay_push.go", "AddRtmpPushSession", "defer verifPushAdded(group)")
+	// the deferred HLS directory cleanup (a goroutine that sleeps, then looks the group up and removes
+	// files) goes through a hook, so that an environment can run it as a thread / at an instant of its own
+	rewriteText(*repo, *out, res, "pkg/logic/server_manager__.go", "\t\tdefertaskthread.Go(\n", "\t\tsm.verifDeferGo(\n")
 	json.NewEncoder(os.Stdout).Encode(res)
+}
+
+// rewriteText replaces the one occurrence of old by repl in a file (must occur exactly once).
+func rewriteText(repo, out string, res map[string]string, rel, old, repl string) {
+	src := filepath.Join(repo, rel)
+	b := readCur(res, src)
+	if strings.Count(string(b), old) != 1 {
+		die("pattern %q occurs %d times in %s (want 1)", old, strings.Count(string(b), old), rel)
+	}
+	outb := []byte(strings.Replace(string(b), old, repl, 1))
+	outb = append(outb, []byte("\n// keeps the import referenced after the generated rewrite\nvar _ = defertaskthread.NewDeferTaskThread\n")...)
+	p := filepath.Join(out, "gen_"+strings.ReplaceAll(rel, "/", "_"))
+	if err := os.WriteFile(p, outb, 0o644); err != nil {
+		die("%v", err)
+	}
+	res[src] = p
 }
 
 // genNazaConn: a copy of naza's pkg/connection/connection.go (the version /repo/go.mod pins) in which
